@@ -156,7 +156,9 @@ def run(e: Engine, rep: Report):
 def t4(e: Engine, rep: Report):
     ctx = e.method_ctx('slimta.smtp.server.Server', 'handle')
     where = ctx.func.qname
-    g = e.build(ctx)
+    g = e.build(ctx, inline=e.inline_same_self(
+        deny=['_handle_command', '_recv_command', '_call_custom_handler',
+              '_encrypt_session']), max_depth=3)
     rep.functions.add(where)
 
     # calls that must be protected by the Timeout handler
